@@ -128,6 +128,57 @@ fn post_ok(local: &Files, hub_before: &Files, hub_after: &Files, r: &RunRes) -> 
     }
 }
 
+/// The hub's k-th file-system-mutating libc call FAILS (every k) while one client runs hub-sync: an exit status 0
+/// must still mean that every local file is on the hub; a failure must not have touched other paths.
+fn io_fault_part(thorough: bool, evals: &AtomicU64) -> Vec<Violation> {
+    let errnos: Vec<i32> = if thorough { vec![13, 28, 5] } else { vec![13] };
+    let cases: Vec<(&str, &str)> = vec![("fX+dgZ", "hub-f"), ("fY", "hub-h")];
+    let jobs: Vec<(&str, &str, i32)> = cases.iter().flat_map(|(l, hb)| errnos.iter().map(move |e| (*l, *hb, *e))).collect();
+    jobs.par_iter()
+        .flat_map_iter(|&(lname, hb, errno)| {
+            let mut out = Vec::new();
+            let run = |k: Option<u64>| -> (Files, Files, Files, RunRes, u64) {
+                let sc = Scratch::new("c13io");
+                let hub = sc.path("hub");
+                write_tree(&hub, &tree(hb));
+                let local = sc.path("local");
+                let lt = tree(lname);
+                write_tree(&local, &lt);
+                let before = live(&snapshot_hub(&hub));
+                let logp = sc.path("shim.log");
+                let mut c = std::process::Command::new(cli_bin());
+                c.arg("hub-sync").arg(&local).arg(&hub).env("RUST_LOG", "off").env("TOKIO_WORKER_THREADS", "1").env("HOME", sc.path("home")).env("LD_PRELOAD", crate::e3::SHIM).env("VSHIM_ROOT", &hub).env("VSHIM_LOG", &logp);
+                match k {
+                    Some(k) => {
+                        c.env("VSHIM_MODE", "inject").env("VSHIM_KILL_AT", u64::MAX.to_string()).env("VSHIM_FAIL_AT", k.to_string()).env("VSHIM_FAIL_ERRNO", errno.to_string());
+                    }
+                    None => {
+                        c.env("VSHIM_MODE", "log");
+                    }
+                }
+                let (code, o, e) = output_with_timeout(&mut c, 60);
+                evals.fetch_add(1, Ordering::Relaxed);
+                let n = std::fs::read_to_string(&logp).map(|t| t.lines().count() as u64).unwrap_or(0);
+                (lt, before, snapshot_hub(&hub), RunRes { code, stdout: String::from_utf8_lossy(&o).into_owned(), stderr: String::from_utf8_lossy(&e).into_owned() }, n)
+            };
+            let (lt0, b0, a0, r0, n) = run(None);
+            if r0.code != Some(0) || post_ok(&lt0, &b0, &a0, &r0).is_some() || n == 0 {
+                return out; // no clean baseline here: the sequential part judges the fault-free behaviour
+            }
+            for k in 1..=n {
+                let (lt, before, after, r, _) = run(Some(k));
+                if let Some((kind, m)) = post_ok(&lt, &before, &after, &r) {
+                    out.push(Violation::new(&kind, format!("hub {hb}, local {lname}, the hub's mutating libc call #{k} failing with errno {errno}: {m}; stdout: {}; stderr: {}", r.stdout.lines().last().unwrap_or(""), r.stderr.lines().last().unwrap_or("")), json!({"part":"io_fault","hub":hb,"local":lname,"k":k,"errno":errno})).with("cause", json!("io_error")));
+                    if out.len() >= 2 {
+                        break;
+                    }
+                }
+            }
+            out
+        })
+        .collect()
+}
+
 fn sequential_part(thorough: bool, evals: &AtomicU64, nontrivial: &AtomicU64) -> Vec<Violation> {
     let locals = ["fX", "fY", "fX+dgZ", "empty", "dotcopia", "order"];
     let hubs = ["empty", "hub-f", "hub-h"];
@@ -441,6 +492,8 @@ pub fn run(ctx: &Ctx) -> ! {
                 }
                 vs.extend(c13_judge(sys, n)(&e1));
             }
+        } else if d["part"] == "io_fault" {
+            vs.extend(io_fault_part(true, &evals).into_iter().filter(|x| x.detail["k"] == d["k"] && x.detail["hub"] == d["hub"] && x.detail["errno"] == d["errno"]));
         } else {
             vs.extend(sequential_part(true, &evals, &nontrivial).into_iter().filter(|x| x.detail["sequence"] == d["sequence"] && x.detail["hub"] == d["hub"]));
         }
@@ -449,6 +502,7 @@ pub fn run(ctx: &Ctx) -> ! {
         finish(ctx, rep, vs);
     }
     violations.extend(sequential_part(thorough, &evals, &nontrivial).into_iter().take(6));
+    violations.extend(io_fault_part(thorough, &evals).into_iter().take(4));
     let seq_runs = evals.load(Ordering::Relaxed);
     // determinism of the external-client mode
     {
